@@ -15,12 +15,25 @@ package sniffing
 //@   requires search != nil
 //@   modifies *
 
+// Functional part (the walk over the server_name list): every position at which an entry header is read
+// is an entry boundary - reachable from the start of the list by adding 3 + the 16-bit length found at
+// the previous boundary - and the name handed back is the value of an entry of type host_name whose
+// length is the one found at its own boundary.
 //@ func findSniExtension
 //@   requires search != nil
 //@   modifies *
+//@   let len16(p int) = quicutils.locByte(search, p + 1) * 256 + quicutils.locByte(search, p + 2)
+//@   ghostfn nxt(p int) int
+//@   ghostfn reach(s int, p int) bool
+//@   assume forall p int {nxt(p)} :: nxt(p) == p + 3 + len16(p)
+//@   assume forall s int {reach(s, s)} :: reach(s, s)
+//@   assume forall s int, p int {reach(s, nxt(p))} :: reach(s, p) ==> reach(s, nxt(p))
+//@   at call Range#3 assert reach(i + 6, j) && nxt(j) == j + 3 + len16(j)
+//@   at call Range#4 assert reach(i + 6, j) && quicutils.locByte(search, j) == 0 && indicatorLen == len16(j)
 //@   loop 1
 //@     invariant 0 <= i && i <= search.Len()
 //@   loop 2
+//@     invariant reach(i + 6, j)
 //@     invariant 0 <= i && i + 6 <= j && j <= iNextField + 65535 && iNextField <= search.Len() && iNextField == i + 4 + extLength
 
 // C18 (normalisation of a sniffed host): lower-cased and trimmed; a value ending in ']' is a bracketed
